@@ -497,6 +497,33 @@ def check_traces(run, quick):
         run.samples.append({'trace': index.get(events[b]['tid']), 'events': events[b:b + 4]})
 
 
+def replay(run, path):
+    """./check C06 --replay replays/C06/<file>.json : show what the library does with the first recorded case"""
+    import json
+    import traceback
+    rec = json.load(open(path))
+    case = rec['first']['case']
+    print('clause=%s tag=%s count=%s' % (rec['clause'], rec['tag'], rec['count']))
+    print('expected:', json.dumps(rec['first']['expected'])[:2000])
+    if 'bytes' not in case:
+        print('corpus case:', case)
+        print('observed:', json.dumps(rec['first']['observed'])[:2000])
+        run.cleanup()
+        return 0
+    data = base64.b64decode(case['bytes'])
+    print('section: %s, %s-endian, address size %d, address %#x, %d bytes: %s'
+          % (case['sk'], 'little' if case['le'] else 'big', case['asz'], case['addr'], len(data), data.hex()))
+    try:
+        for e in _entries_direct(case, data):
+            print(_project(e))
+            if _kind(e) != 'ZERO':
+                print('   table:', _lib_table(e))
+    except Exception:                # noqa
+        traceback.print_exc()
+    run.cleanup()
+    return 0
+
+
 def check(run):
     quick = run.tier == 'quick'
     if quick:
